@@ -9,8 +9,11 @@ namespace rg {
 
 using rm::AreaD; using rm::RegD; using rm::TableD;
 
-inline RegisterValue to_value(int type, uint64_t raw) {
-    RegisterValue v; memset(&v, 0, sizeof v);
+// fill: what the octets of the union outside the typed member hold. Table definitions (limits, defaults) are built zero-filled like the
+// REG_* initialiser macros do; operands handed to the library are built like `RegisterValue v; v.type = ...; v.value.u16 = x;` on a
+// dirty stack, i.e. with garbage around the member, which the library has no business looking at.
+inline RegisterValue to_value(int type, uint64_t raw, int fill = 0xa5) {
+    RegisterValue v; memset(&v, fill, sizeof v);
     v.type = (RegisterType)type;
     switch (type) {
     case rm::U16: v.value.u16 = (uint16_t)raw; break;
@@ -24,7 +27,7 @@ inline RegisterValue to_value(int type, uint64_t raw) {
     }
     return v;
 }
-inline RegisterValueU to_valueu(int type, uint64_t raw) { return to_value(type, raw).value; }
+inline RegisterValueU to_valueu(int type, uint64_t raw) { return to_value(type, raw, 0).value; }
 inline uint64_t from_value(const RegisterValue &v) {
     switch ((int)v.type) {
     case rm::U16: return v.value.u16;
